@@ -167,7 +167,8 @@ def run(ctx):
     eq = dict(n)
     stats = {"lit_accept": 0, "lit_reject_out_of_range": 0, "lit_reject_annotation": 0, "op_value_checks": 0, "op_const_exprs": 0,
              "flt_accept": 0, "flt_reject": 0, "flt_double_rounding_discriminating": 0, "flt_double_rounded": 0, "pat_accept": 0, "pat_reject": 0,
-             "neg_accept": 0, "neg_reject": 0, "neg_most_negative_value_not_writable": 0}
+             "pat_known_scrutinee": 0, "pat_inferred_scrutinee": 0, "pat_inferred_accept": 0,
+             "pat_inferred_unsuffixed_in_range_rejected_as_mismatch": 0, "neg_accept": 0, "neg_reject": 0, "neg_most_negative_value_not_writable": 0}
     distinct = set()
     samples_out = []
     model_diffs = 0
@@ -267,34 +268,51 @@ def run(ctx):
         # ---------------------------------------------------------------- PAT
         elif kind == "PAT":
             digits, sfx, scrut = args[0], ("" if args[1] == "-" else args[1]), args[2]
+            shape = args[3] if len(args) > 3 else "param"
+            inferred = shape in ("arith", "let", "closure", "generic", "ifexpr")
+            # the type the pattern must denote its number at: its suffix's type, else the scrutinee's type — whether that
+            # type was written down (known) or only inferred
             ty = SUFFIX[sfx] if sfx else scrut
             written = int(digits)
             fits = in_range(ty, written)
-            distinct.add(("PAT", digits, sfx, scrut))
+            distinct.add(("PAT", digits, sfx, scrut, shape))
+            stats["pat_inferred_scrutinee" if inferred else "pat_known_scrutinee"] += 1
             if impl.startswith(pred) and pred:
                 eq[kind] += 1
             else:
                 tie_fail(kind, r, pred)
+            if len(samples_out) < 8 and inferred and written > 100 and scrut in ("uint8", "int32") and shape in ("arith", "closure") and not sfx:
+                samples_out.append({"id": cid, "stream": kind, "case": sexp, "implementation": impl, "model": pred})
+            where = f"a {scrut} scrutinee ({'type inferred: ' + shape if inferred else 'type known: ' + shape})"
             if impl.startswith("accept "):
                 stats["pat_accept"] += 1
+                stats["pat_inferred_accept"] += inferred
                 f = fields(impl)
                 m = re.fullmatch(r"var:(\w+)/lit:(\w+):(-?\d+)", f.get("cases", ""))
                 bad = []
                 if ty != scrut: bad.append("accepted-at-a-type-other-than-the-scrutinee-type")
-                if not fits: bad.append("out-of-range-literal-accepted")
+                if not in_range(scrut, written): bad.append("out-of-range-literal-accepted")
+                if f.get("core") != f"{PRIM[scrut]}:{written}:{TAST[scrut]}": bad.append("wrong-value-in-core")
                 if not m or m.group(1) != scrut or m.group(2) != scrut: bad.append("wrong-go-type")
                 elif go_read_int(m.group(3)) != written or f.get("txt") != m.group(3): bad.append("go-literal-denotes-another-number")
                 for b in bad:
-                    ctx.report({"oracle": "pattern-literal", "kind": b}, f"pattern `{digits}{sfx}` on a {scrut} scrutinee: {b}", dict(payload, written=str(written)))
+                    ctx.report({"oracle": "pattern-literal", "kind": b, "scrutinee": "inferred" if inferred else "known"},
+                               f"pattern `{digits}{sfx}` on {where} is accepted; Core holds `{f.get('core')}` and Go gets `case {f.get('txt')}:`: {b}",
+                               dict(payload, written=str(written), scrutinee_type=scrut, shape=shape))
             elif impl.startswith("reject "):
                 stats["pat_reject"] += 1
                 if fits and ty == scrut:
-                    ctx.report({"oracle": "pattern-literal", "kind": "in-range-literal-rejected"},
-                               f"pattern `{digits}{sfx}` on a {scrut} scrutinee is in range but rejected", dict(payload, written=str(written)))
+                    if inferred and not sfx:
+                        # not a violation of the statement (nothing wrong is accepted): an unsuffixed pattern is validated as
+                        # int32 while the scrutinee's type is still unknown, and the program is then refused as a type mismatch
+                        stats["pat_inferred_unsuffixed_in_range_rejected_as_mismatch"] += 1
+                    else:
+                        ctx.report({"oracle": "pattern-literal", "kind": "in-range-literal-rejected", "scrutinee": "inferred" if inferred else "known"},
+                                   f"pattern `{digits}{sfx}` on {where} is in range but rejected", dict(payload, written=str(written)))
             else:
                 msg = impl[6:].strip() if impl.startswith("panic ") else impl
                 ctx.report({"oracle": "pattern-literal", "kind": "panic", "form": "unsuffixed" if not sfx else "suffixed", "message": msg[:80]},
-                           f"integer literal pattern `{digits}{sfx}` on a {scrut} scrutinee is accepted by the typer and then the compiler panics: {msg[:80]}",
+                           f"integer literal pattern `{digits}{sfx}` on {where} is accepted by the typer and then the compiler panics: {msg[:80]}",
                            dict(payload, written=str(written)))
 
         # ---------------------------------------------------------------- OP
@@ -496,7 +514,10 @@ def run(ctx):
         "stats": stats, "samples": samples_out,
         "input_distribution": "LIT: every value 0..300 at i8 and u8, ±2 around every boundary of all 8 integer types in every suffix form and unsuffixed, "
                               "with matching and foreign annotations, leading zeros, seeded random 64-bit and wider values; NEG: negated literals around the "
-                              "negative end of every type; PAT: literal patterns (suffixed, foreign suffix, unsuffixed) at every scrutinee type; OP: 10 arithmetic/comparison "
+                              "negative end of every type; PAT: literal patterns (suffixed, foreign suffix, unsuffixed) at every scrutinee type, on scrutinees of known type (parameter, let of "
+                              "one, negation) and on scrutinees whose type is inferred after the pattern was checked (operator result, un-annotated let "
+                              "of one, closure parameter, generic call result, if result) with values in range / at the boundary / just outside / far "
+                              "outside the scrutinee type but inside int32 / around int32's end; OP: 10 arithmetic/comparison "
                               "operators + neg × 8 integer types × operand shapes var/var, var/lit, lit/var, lit/lit (incl. overflowing and zero-divisor "
                               "literal pairs), bool and float operators; each integer OP case is evaluated on all 256×256 operand pairs (8-bit) or "
                               "boundary+random pairs against the source meaning; FLT: decimals, f32 rounding midpoints ± 10^-k, range ends, subnormals",
